@@ -347,6 +347,22 @@ pub fn run_property(prop: &str, ctx: &mut Ctx, rep: &mut Report) {
             for _ in 0..4 { inject_fault(&mut h.net, &mut r2); let mut k = 0; while k < 6 && h.net.random_step(&mut r2, (1, 8)) { k += 1; } }
         }
         note_history(rep, &h);
+        // model correspondence on this property's projection (execution-stage model; scripts outside the modelled fragment are skipped and counted)
+        let projection: Option<&[&str]> = match prop { "C05" => Some(&["code", "requests", "trace"]), "C06" => Some(&["code", "lcid", "requests"]), "C19" => Some(&["code", "next", "requests"]),
+            "C04" => Some(&["code"]), "C07" | "C09" | "C10" => Some(&["code", "trace"]), "C03" => Some(&["code", "stores", "trace"]), "C20" => Some(&["code", "msg", "trace", "lcid", "next", "requests", "stores"]), _ => None };
+        if let (Some(fields), Ok(ast)) = (projection, air_parser::parse(&h.air)) {
+            let ast = serde_json::to_value(&ast).unwrap();
+            for st in &h.net.log {
+                if st.outcome.ret_code == PANIC_CODE || st.event.starts_with("fault") { continue; }
+                let req = crate::props::execcorr::exec_request(&h.net, st, &ast);
+                let m = ctx.driver.ask(&req);
+                if m.get("unmodelled").is_some() { rep.unmodelled += 1; continue; }
+                rep.model_compared += 1;
+                if let Some(why) = crate::props::execcorr::compare_exec_projected(&m, &h.net, st, fields) {
+                    rep.disagree(json!({"op": "exec", "projection": fields, "why": why, "air": h.air, "step": step_json(&h.net, st)}));
+                }
+            }
+        }
         let canon = canon_case(&h);
         let nontrivial = h.net.log.len() >= 2;
         let n_steps = h.net.log.len();
